@@ -626,7 +626,7 @@ def listItemLoop (cfg : MdCfg) (pm : ParseMethod) (sc : List (String × Rx)) (te
                 let nextGroup : ItemGroups :=
                   (grp cfg st m "listitem_1", grp cfg st m "listitem_2", grp cfg st m "listitem_3")
                 pure (some (some nextGroup, token), { st with cursor := m.stop + 1 })
-              else if tokType == "list" then pure (some (none, token), st)
+              else if tokType == "list" || tokType == "block_quote" then pure (some (none, token), st)
               else do
                 let tokIndex := st.tokens.length
                 let (endPos, st) ← pm tokType m st
